@@ -20,6 +20,7 @@ require (
 	github.com/libp2p/go-libp2p-core v0.8.5
 	github.com/libp2p/go-libp2p-gorpc v0.1.3
 	github.com/libp2p/go-libp2p-pubsub v0.4.1
+	github.com/libp2p/go-libp2p-routing-helpers v0.2.3
 	github.com/multiformats/go-multiaddr v0.3.3
 	github.com/multiformats/go-multihash v0.0.15
 	github.com/ugorji/go/codec v1.2.6
@@ -135,7 +136,6 @@ require (
 	github.com/libp2p/go-libp2p-quic-transport v0.11.1 // indirect
 	github.com/libp2p/go-libp2p-raft v0.1.7 // indirect
 	github.com/libp2p/go-libp2p-record v0.1.3 // indirect
-	github.com/libp2p/go-libp2p-routing-helpers v0.2.3 // indirect
 	github.com/libp2p/go-libp2p-swarm v0.5.0 // indirect
 	github.com/libp2p/go-libp2p-tls v0.1.3 // indirect
 	github.com/libp2p/go-libp2p-transport-upgrader v0.4.2 // indirect
